@@ -540,6 +540,9 @@ def noBang (a : List Char) : Prop := ∀ c ∈ a, c ≠ '!'
 /-- blanks are the only white space (no tabs etc.) -/
 def onlyBlanks (a : List Char) : Prop := ∀ c ∈ a, ws c = true → c = ' '
 
+instance (a : List Char) : Decidable (noBang a) := by unfold noBang; infer_instance
+instance (a : List Char) : Decidable (onlyBlanks a) := by unfold onlyBlanks; infer_instance
+
 theorem content_append (a x : List Char) (h : noBang a) : content (a ++ x) = a ++ content x :=
   stripComment_append a x h
 
@@ -738,6 +741,8 @@ theorem comment_facts (L t : List Char) (hne : L ≠ []) (hB : noBang L)
 /-- characters a keyword is made of -/
 def kwChars (k : List Char) : Prop := ∀ c ∈ k, ws c = false ∧ c ≠ '!' ∧ c ≠ '='
 
+instance (k : List Char) : Decidable (kwChars k) := by unfold kwChars; infer_instance
+
 theorem split_token (k : List Char) (hne : k ≠ []) (h : ∀ c ∈ k, ws c = false) : split k = [k] := by
   induction k with
   | nil => exact absurd rfl hne
@@ -832,5 +837,166 @@ theorem case_facts (k k' r : List Char) (hne : k ≠ []) (hne' : k' ≠ []) (hk 
   · rw [ptoks_eq, ptoks_eq, (hnb k hne hk).1, (hnb k' hne' hk').1, hZ k' hne' hk' hci, hZ k hne hk rfl]
     simp [upperHead, hu]
 
+
+/-- One elementary change of layout, comment or keyword case (the relation is closed under symmetry and
+    transitivity in `LayoutEq`). `pre`/`post` are the untouched lines before and after.
+    Hypotheses, and what each excludes:
+    * `noBang a` — the edit happens in the instruction part of the line, not inside an existing comment;
+    * `plainRem … = false` — REM lines are free text: their blanks are content and they are never continued
+      (`REM a b` wrapped into `REM a =` / ` b` *is* a different file; real code and spec agree on that);
+    * `WrapHyp.token` — a wrap point has a token after it (otherwise the new ` =` would follow an old marker);
+    * `WrapHyp.blanks` — blanks are the only white space in front of the wrap point (a line that starts with
+      a tab is not "indented" for `line.startswith(' ')`);
+    * `boundary pre` — blank lines / indented comment lines are added between instructions, not between a
+      line carrying the marker and its continuation;
+    * `kwChars`/`restOk` — `k` is exactly the first token of a non-indented line. -/
+inductive LayoutStep : List Line → List Line → Prop
+  | wrap (pre post : List Line) (a b : List Char) (h : WrapHyp a b) :
+      LayoutStep (pre ++ (a ++ ' ' :: b) :: post) (pre ++ (a ++ [' ', '=']) :: (' ' :: b) :: post)
+  | blanks (pre post : List Line) (a b : List Char) (hB : noBang a)
+      (hr : plainRem (a ++ ' ' :: b) = false) (hr' : plainRem (a ++ ' ' :: ' ' :: b) = false) :
+      LayoutStep (pre ++ (a ++ ' ' :: b) :: post) (pre ++ (a ++ ' ' :: ' ' :: b) :: post)
+  | comment (pre post : List Line) (L t : List Char) (hne : L ≠ []) (hB : noBang L)
+      (hr : plainRem L = false) (hr' : plainRem (L ++ ' ' :: '!' :: t) = false) :
+      LayoutStep (pre ++ L :: post) (pre ++ (L ++ ' ' :: '!' :: t) :: post)
+  | blankLine (pre post : List Line) (e : List Char) (he : ∀ c ∈ e, c = ' ') (hb : boundary pre) :
+      LayoutStep (pre ++ post) (pre ++ e :: post)
+  | commentLine (pre post : List Line) (t : List Char) (hb : boundary pre) :
+      LayoutStep (pre ++ post) (pre ++ (' ' :: t) :: post)
+  | kwCase (pre post : List Line) (k k' r : List Char) (hne : k ≠ []) (hne' : k' ≠ []) (hk : kwChars k)
+      (hk' : kwChars k') (hu : upper k = upper k') (hr : restOk r) :
+      LayoutStep (pre ++ (k ++ r) :: post) (pre ++ (k' ++ r) :: post)
+
+/-- **layout_preserves_norm** — every elementary layout step leaves the normal form (validity included:
+    `none = none` for files that are not valid) unchanged. -/
+theorem layout_preserves_norm {f f' : List Line} (h : LayoutStep f f') : norm f = norm f' := by
+  cases h with
+  | wrap pre post a b h => exact normAux_pre_congr pre _ _ (wrap_facts a b h post) none
+  | blanks pre post a b hB hr hr' => exact (normAux_pre_congr pre _ _ (blanks_facts a b hB hr hr' post) none).symm
+  | comment pre post L t hne hB hr hr' =>
+    exact (normAux_pre_congr pre _ _ (comment_facts L t hne hB hr hr' post) none).symm
+  | blankLine pre post e he hb =>
+    apply norm_insert e _ pre post hb
+    cases e with
+    | nil => rfl
+    | cons c e' => rw [he c (by simp)]; rfl
+  | commentLine pre post t hb => exact norm_insert _ rfl pre post hb
+  | kwCase pre post k k' r hne hne' hk hk' hu hr =>
+    exact (normAux_pre_congr pre _ _ (case_facts k k' r hne hne' hk hk' hu hr post) none).symm
+
+/-- any sequence of layout steps, forwards or backwards -/
+inductive LayoutEq : List Line → List Line → Prop
+  | refl (f) : LayoutEq f f
+  | step {f g h} : LayoutEq f g → LayoutStep g h → LayoutEq f h
+  | back {f g h} : LayoutEq f g → LayoutStep h g → LayoutEq f h
+
+theorem layoutEq_norm {f f' : List Line} (h : LayoutEq f f') : norm f = norm f' := by
+  induction h with
+  | refl => rfl
+  | step _ s ih => exact ih.trans (layout_preserves_norm s)
+  | back _ s ih => exact ih.trans (layout_preserves_norm s).symm
+
+/-- **layout_invariance** — two files that differ only by layout steps, one of them a valid layout: the
+    (repaired) code's continuation loop hands the same token lines (keyword upper-cased, everything else as
+    written) to the rest of the parser for both, without raising. -/
+theorem layout_invariance {f f' : List Line} (h : LayoutEq f f') (n : List (List Token)) (hv : norm f = some n) :
+    modelTokens f = .ok n ∧ modelTokens f' = .ok n :=
+  ⟨glue_tokens f n hv, glue_tokens f' n ((layoutEq_norm h).symm.trans hv)⟩
+
+theorem LayoutStep.cast {f g f' g' : List Line} (h : LayoutStep f g) (e1 : f = f') (e2 : g = g') :
+    LayoutStep f' g' := e1 ▸ e2 ▸ h
+
+/-- a non-trivial instance: wrap after `1.5`, comment with '=' on the first part, keyword in lower case -/
+example : LayoutEq ["DFIX 1.5 C1 C2".toList, "END".toList]
+    ["dfix 1.5 = ! a = b".toList, " C1 C2".toList, "END".toList] := by
+  have s1 : LayoutStep ["DFIX 1.5 C1 C2".toList, "END".toList] ["DFIX 1.5 =".toList, " C1 C2".toList, "END".toList] :=
+    (LayoutStep.wrap [] ["END".toList] "DFIX 1.5".toList "C1 C2".toList
+      ⟨by decide, by decide, by decide, by decide, by decide⟩).cast (by decide) (by decide)
+  have s2 : LayoutStep ["DFIX 1.5 =".toList, " C1 C2".toList, "END".toList]
+      ["DFIX 1.5 = ! a = b".toList, " C1 C2".toList, "END".toList] :=
+    (LayoutStep.comment [] [" C1 C2".toList, "END".toList] "DFIX 1.5 =".toList " a = b".toList (by decide) (by decide)
+      (by decide) (by decide)).cast (by decide) (by decide)
+  have s3 : LayoutStep ["DFIX 1.5 = ! a = b".toList, " C1 C2".toList, "END".toList]
+      ["dfix 1.5 = ! a = b".toList, " C1 C2".toList, "END".toList] :=
+    (LayoutStep.kwCase [] [" C1 C2".toList, "END".toList] "DFIX".toList "dfix".toList " 1.5 = ! a = b".toList
+      (by decide) (by decide) (by decide) (by decide) (by decide) (Or.inr ⟨' ', _, rfl, by decide⟩)).cast
+      (by decide) (by decide)
+  exact .step (.step (.step (.refl _) s1) s2) s3
+
+/-! ### the code as it was (before fixes/C05_1, C05_2): the same statements fail, with witnesses -/
+
+/-- `Except` made comparable -/
+def okOf {α} : Except PyErr α → Option α
+  | .ok a => some a
+  | .error _ => none
+
+/-- full-strength statement for a model `m` of the continuation loop -/
+def GlueStatement (m : List Line → Except PyErr (List (List Token))) : Prop :=
+  ∀ f n, norm f = some n → m f = .ok n
+
+theorem glue_holds_repaired : GlueStatement modelTokens := glue_tokens
+
+/-- a '!' comment that contains '=' swallows the next instruction -/
+theorem old_fails_on_comment_with_eq : ¬ GlueStatement modelTokensOld := by
+  intro h
+  have := h ["TEMP -100 ! T = low".toList, "L.S. 10".toList]
+    [["TEMP".toList, "-100".toList], ["L.S.".toList, "10".toList]] (by decide)
+  have h2 := congrArg okOf this
+  revert h2; decide
+
+/-- `rem a = b` in lower case: the REM exemption was case-sensitive -/
+theorem old_fails_on_lower_case_rem : ¬ GlueStatement modelTokensOld := by
+  intro h
+  have := h ["rem a = b".toList, "L.S. 10".toList]
+    [["REM".toList, "a".toList, "=".toList, "b".toList], ["L.S.".toList, "10".toList]] (by decide)
+  have h2 := congrArg okOf this
+  revert h2; decide
+
+/-- a wrapped line whose comment contains another '=': the text is cut inside the comment -/
+theorem old_fails_on_comment_after_marker : ¬ GlueStatement modelTokensOld := by
+  intro h
+  have := h ["DFIX 1.5 C1 C2 = ! a = b".toList, "  C3 C4".toList]
+    [["DFIX".toList, "1.5".toList, "C1".toList, "C2".toList, "C3".toList, "C4".toList]] (by decide)
+  have h2 := congrArg okOf this
+  revert h2; decide
+
+/-- a '=' comment on the last line: the old loop reads past the end of the file (IndexError) -/
+theorem old_raises_on_last_line : okOf (modelTokensOld ["END ! a=b".toList]) = none ∧
+    okOf (modelTokens ["END ! a=b".toList]) = some [["END".toList]] := by decide
+
+/-! ### residue classes behind the tokens -/
+
+/-- **class_lookup_ci** — after fixes/C05_3 the residue numbers a restraint's class suffix resolves to do not
+    depend on the letter case of the RESI classes or of the suffix -/
+theorem class_lookup_ci (rs rs' : List (Token × Int)) (s s' : Token)
+    (hr : rs.map (fun r => (upper r.1, r.2)) = rs'.map (fun r => (upper r.1, r.2))) (hs : upper s = upper s') :
+    classNumbers keyNew rs s = classNumbers keyNew rs' s' := by
+  have key : ∀ (rs rs' : List (Token × Int)), rs.map (fun r => (upper r.1, r.2)) = rs'.map (fun r => (upper r.1, r.2)) →
+      (rs.filter fun r => keyNew r.1 (upper s)).map (·.2) = (rs'.filter fun r => keyNew r.1 (upper s')).map (·.2) := by
+    intro rs
+    induction rs with
+    | nil => intro rs' h; cases rs' with
+      | nil => rfl
+      | cons _ _ => simp at h
+    | cons r rs ih =>
+      intro rs' h
+      cases rs' with
+      | nil => simp at h
+      | cons r' rs' =>
+        simp only [List.map_cons, List.cons.injEq, Prod.mk.injEq] at h
+        obtain ⟨⟨h1, h2⟩, h3⟩ := h
+        have := ih rs' h3
+        have hk : keyNew r.1 (upper s) = keyNew r'.1 (upper s') := by simp only [keyNew, h1, hs]
+        simp only [List.filter_cons, hk]
+        cases keyNew r'.1 (upper s') with
+        | true => simp only [↓reduceIte, List.map_cons, this, h2]
+        | false => simpa using this
+  simp only [classNumbers, key rs rs' hr]
+
+/-- the code as it was: `RESI ccf 1` is not found by `SADI_ccf` (suffix upper-cased, dictionary key as written) -/
+theorem class_lookup_old_fails :
+    classNumbers keyOld [("ccf".toList, 1)] "ccf".toList = [0] ∧
+    specClassNumbers [("ccf".toList, 1)] "ccf".toList = [1] ∧
+    classNumbers keyNew [("ccf".toList, 1)] "ccf".toList = [1] := by decide
 
 end Shelx.C05
